@@ -121,6 +121,7 @@ MCSpec == MCInit /\ [][MCNext]_mcvars
 View == <<store, file, cmd, node, clock, produced, nbyz, nfault, ntamper, nplant, ntick, nnode>>
 
 MCFetchWritesGood == [][FetchWritesGoodA]_mcvars
+MCFetchWritesGoodButD1 == [][FetchWritesGoodButD1A]_mcvars
 MCFileStable == [][FileStableA]_mcvars
 MCNodeKeeps == [][NodeKeepsA]_mcvars
 MCSignJoins == [][SignJoinsA]_mcvars
